@@ -3104,3 +3104,187 @@ func c06EdgeCase(r *kit.Result, er *c06EdgeRun, rng *kit.Rand) {
 		r.Sample(wit)
 	}
 }
+
+// ------------------------------------------------------------------ hostile names
+//
+// The core decides several things from the text of the request path (is this a renewal? a login? a
+// create?). A token role, a login name or a secret path may be called like one of the token store's own
+// endpoints. Whatever the name, the property is the same: the service token / secret the client
+// receives has its durable lease (the token's at the lease id the product derives for it) and works at
+// once. Fault-free requests; one core per store kind.
+
+func c06HostileNames() []string {
+	words := []string{"renew", "renew-self", "renew-accessor", "create", "create-orphan", "lookup", "lookup-self", "lookup-accessor",
+		"revoke", "revoke-self", "revoke-orphan", "revoke-accessor", "roles", "tidy", "accessors"}
+	out := append([]string(nil), words...)
+	// the words as prefix / suffix, upper case, with dots and dashes
+	out = append(out, "renewal", "xrenew", "renew-x", "x-renew", "RENEW", "Renew-Self", "renew.self", "a.renew", "renew.x", "re-new", "x.renew-accessor", "create.renew", "roles-renew")
+	return out
+}
+
+func TestVerif_C06_Names(t *testing.T) {
+	seed := kit.Seed(6)
+	shard, shards := kit.Shard()
+	r := kit.NewResult(t, "c06-names", seed, "for each name that is, contains, or resembles an endpoint of the token store (renew, renew-self, renew-accessor, create, create-orphan, lookup*, revoke*, roles, tidy, accessors; as prefix / suffix; upper case; with dots and dashes) x namespace (root, ns1/) x wrapped / unwrapped: a token role of that name is created and a token is created through it, a login is made under that name, and a leased secret is read at a path ending in that name (fault-free); the service token / secret the client receives must have its durable lease record (the token's where the expiration manager derives it) and index entry, and the token must be accepted at once. Distinct by (kind, name, namespace, wrap)")
+	r.Exhaustive = true
+	defer r.Write(t)
+	cores := map[bool]*vCore{}
+	defer func() {
+		for _, v := range cores {
+			v.Close()
+			delete(c06Injs, v)
+			delete(c06CtxMounts, v)
+		}
+	}()
+	n := 0
+	for _, name := range c06HostileNames() {
+		for _, ns := range []string{"", "ns1/"} {
+			for _, wrap := range []bool{false, true} {
+				for _, kind := range []string{"role", "login", "secret"} {
+					caseID := fmt.Sprintf("names:%s:%s:ns=%s:wrap=%v", kind, name, ns, wrap)
+					h := c06Hash(caseID)
+					if !kit.WantCase(caseID) || int(h%uint64(shards)) != shard {
+						continue
+					}
+					if kit.Tier() == "quick" && kind != "role" && (ns != "" || wrap) && kit.OnlyCase() == "" {
+						continue // quick: logins and secret paths in the root namespace, unwrapped
+					}
+					tx := (h/7)%2 == 1
+					v := cores[tx]
+					if v == nil {
+						v = c06Boot(t, tx, false)
+						cores[tx] = v
+					}
+					n++
+					c06NameCase(r, v, caseID, kind, name, ns, wrap, tx)
+					if r.NViolations() > 40 {
+						return
+					}
+				}
+			}
+		}
+	}
+	if kit.OnlyCase() == "" {
+		r.Require("names_role_tokens_lease_at_its_id", int64(kit.N(80, 15)))
+		r.Require("names_login_tokens_lease_at_its_id", int64(kit.N(20, 15)))
+		r.Require("names_secrets_leased", int64(kit.N(20, 15)))
+		r.Require("names_tokens_accepted_at_once", int64(kit.N(100, 30)))
+	}
+}
+
+func c06NameCase(r *kit.Result, v *vCore, caseID, kind, name, ns string, wrap, tx bool) {
+	r.Eval(1)
+	r.Nontrivial(fmt.Sprintf("%s|%s|%s|%v", kind, name, ns, wrap))
+	wit := map[string]any{"kind": kind, "name": name, "namespace": ns, "wrapped": wrap, "transactional": tx}
+	viol := func(class, what string) {
+		r.Violate(class, caseID, fmt.Sprintf("[%s] %s named %q, namespace %q, wrapped %v: %s", caseID, kind, name, ns, wrap, what), wit)
+	}
+	// the requesting token
+	caller, cresp, cerr := v.CreateToken(v.Root, map[string]any{"policies": []string{"c06"}, "ttl": "1h"}, false, ns)
+	if caller == nil {
+		r.Inconc("%s: requesting token: %s", caseID, vErrStr(cresp, cerr))
+		return
+	}
+	defer v.Do(vReq{Op: logical.UpdateOperation, Path: "auth/token/revoke", Token: v.Root, NS: ns, Data: map[string]any{"token": caller.ID}})
+	rq := vReq{NS: ns, Token: caller.ID, Op: logical.UpdateOperation}
+	if wrap {
+		rq.WrapTTL = 5 * time.Minute
+	}
+	switch kind {
+	case "role":
+		rr, e := v.Do(vReq{Op: logical.UpdateOperation, Path: "auth/token/roles/" + name, Token: v.Root, NS: ns, Data: map[string]any{"allowed_policies": "c06,default"}})
+		if !vOK(rr, e) {
+			r.Count("names_role_name_refused", 1)
+			r.Note("%s: the role name is refused: %s", caseID, vErrStr(rr, e))
+			return
+		}
+		rq.Path = "auth/token/create/" + name
+		rq.Data = map[string]any{"policies": []string{"c06"}, "ttl": "30m"}
+	case "login":
+		rq.Token = ""
+		rq.Path = "auth/c06auth/login/" + name
+		rq.Data = map[string]any{"policies": []string{"c06"}, "ttl": "30m", "token_type": "service"}
+	case "secret":
+		rq.Op = logical.ReadOperation
+		rq.Path = "c06rec/lease/" + name
+		if c06Hash(caseID)%3 == 0 {
+			rq.Path = "c06rec/lease/x/" + name
+		}
+	}
+	mark := v.Rec.Len()
+	resp, err := c06Do(v, rq, "")
+	wit["response"] = vErrStr(resp, err)
+	pay := c06Delivered(resp, err)
+	held := pay
+	if pay.How == "wrapped" {
+		hr, uerr := c06Unwrap(v, pay.WrapToken, ns)
+		if uerr != nil {
+			viol("C06-delivered-wrapping-token-dead", "the client received a wrapping token but unwrapping it fails: "+uerr.Error())
+			return
+		}
+		held = c06FromUnwrapped(hr)
+	}
+	wit["client_holds"] = held.How
+	sn, serr := c06Scan(v)
+	if serr != nil {
+		r.Inconc("%s: scan failed: %v", caseID, serr)
+		return
+	}
+	switch {
+	case kind == "secret":
+		if held.How != "secret" {
+			r.Count("names_request_refused", 1)
+			r.Note("%s: the fault-free read is refused: %s", caseID, vErrStr(resp, err))
+			return
+		}
+		l := sn.leaseByID(held.LeaseID)
+		switch {
+		case l == nil || l.Auth != nil || l.secretID() != held.SecretID:
+			viol("C06-delivered-secret-without-durable-lease", fmt.Sprintf("the client holds secret %s with lease id %q and no lease record exists for it", held.SecretID, held.LeaseID))
+		case len(sn.indexFor(l.LeaseID)) != 1:
+			viol("C06-lease-without-token-index", fmt.Sprintf("the client holds lease %s which has %d token-index entries", l.LeaseID, len(sn.indexFor(l.LeaseID))))
+		case !c06Tracked(v, l.LeaseID):
+			viol("C06-lease-not-tracked", "the delivered secret's lease record is stored but not tracked by the expiration manager")
+		default:
+			r.Count("names_secrets_leased", 1)
+		}
+		if l != nil {
+			rr, e2 := v.Do(vReq{Op: logical.UpdateOperation, Path: "sys/leases/revoke", Token: v.Root, NS: l.NS, Data: map[string]any{"lease_id": l.LeaseID, "sync": true}})
+			if !vOK(rr, e2) || !c06Has(c06RecIDs(v.Rec.Since(mark), "revoked"), held.SecretID) {
+				viol("C06-lease-revocation-misses-backend", fmt.Sprintf("revoking lease %s: %s; the backend saw no revocation of %s", l.LeaseID, vErrStr(rr, e2), held.SecretID))
+			}
+		}
+	default:
+		if held.How != "token" || held.Batch {
+			r.Count("names_request_refused", 1)
+			r.Note("%s: the fault-free request did not return a service token: %s", caseID, vErrStr(resp, err))
+			return
+		}
+		te := sn.tokenByAccessor(held.Accessor)
+		ok := false
+		switch {
+		case te == nil:
+			viol("C06-delivered-token-without-durable-lease", "the client holds a service token but no token entry with its accessor is stored")
+		case sn.leaseForToken(te.ID) == nil:
+			wit["request_path"] = rq.Path
+			viol(c06ClassLeaseID, "the client holds a service token and no lease record at all names it (the expiration manager has nothing at its lease id either: "+c06LeaseAtItsID(v, sn, te)+")")
+		case c06LeaseAtItsID(v, sn, te) != "":
+			viol(c06ClassLeaseID, "the client holds a service token; "+c06LeaseAtItsID(v, sn, te))
+		case !c06Tracked(v, sn.leaseForToken(te.ID).LeaseID):
+			viol("C06-lease-not-tracked", "the delivered token's lease record is stored but not tracked by the expiration manager")
+		default:
+			ok = true
+			r.Count("names_"+kind+"_tokens_lease_at_its_id", 1)
+		}
+		if v.TokenUsable(held.Token, ns) {
+			r.Count("names_tokens_accepted_at_once", 1)
+		} else if ok {
+			viol("C06-delivered-token-not-usable", "the client holds a service token with a durable lease and its first use (auth/token/lookup-self) is refused")
+		}
+		v.Do(vReq{Op: logical.UpdateOperation, Path: "auth/token/revoke", Token: v.Root, NS: ns, Data: map[string]any{"token": held.Token}})
+	}
+	if r.Get("names_samples") < 3 && c06Hash(caseID)%9 == 0 {
+		r.Count("names_samples", 1)
+		r.Sample(wit)
+	}
+}
